@@ -417,6 +417,20 @@ fk!([] Emv<Q>, Q => signalo_filters::mean::exp::mean_variance::Output<Q> {
     }
 });
 
+// the wavelet filters over exact rationals with ANY pair of kernels (C07: "for generic kernels, all sample values")
+fk!([const N: usize] Analyze<Q, N>, Q => Decomposition<Q> {
+    fn cfg_(&mut self) -> String {
+        let c = self.config();
+        format!("{} | {}", render_list(c.low_pass.coefficients.iter()), render_list(c.high_pass.coefficients.iter()))
+    }
+});
+fk!([const N: usize] Synthesize<Q, N>, Decomposition<Q> => Q {
+    fn cfg_(&mut self) -> String {
+        let c = self.config();
+        format!("{} | {}", render_list(c.low_pass.coefficients.iter()), render_list(c.high_pass.coefficients.iter()))
+    }
+});
+
 // ---- classifiers ------------------------------------------------------------------------
 
 macro_rules! classify_fk {
@@ -453,6 +467,7 @@ macro_rules! classify_fk {
 }
 classify_fk!(Q);
 classify_fk!(f64);
+classify_fk!(Sn);
 
 fk!([] Debounce<Q, Q>, Q => Q {
     fn guts_(&mut self, field: &str) -> String {
@@ -581,6 +596,9 @@ macro_rules! float_kinds {
 }
 float_kinds!(f64);
 float_kinds!(f32);
+// differentiate / integrate on the bit-pattern protocol (at f32; at f64 they run on the rational protocol, with NaN)
+fk_bits!([] Differentiate<f32>, f32, |_s| "-".to_string());
+fk_bits!([] Integrate<f32>, f32, |_s| "-".to_string());
 
 macro_rules! with_w {
     ($n:expr, $N:ident => $body:expr) => {
@@ -653,6 +671,11 @@ macro_rules! build_float_kind {
 }
 
 fn build_float(kind: &str, kv: &KV) -> Option<Box<dyn Inst>> {
+    match (kind, kv.get("T").map(|s| s.as_str())) {
+        ("differentiate_b", Some("f32")) => return Some(Box::new(Differentiate::<f32>::default())),
+        ("integrate_b", Some("f32")) => return Some(Box::new(Integrate::<f32>::default())),
+        _ => {}
+    }
     match kv.get("T").map(|s| s.as_str()) {
         Some("f64") => build_float_kind!(f64, kind, kv),
         Some("f32") => build_float_kind!(f32, kind, kv),
@@ -829,6 +852,22 @@ fn build_inner(kind: &str, kv: &KV, wrap: Option<&str>) -> Box<dyn Inst> {
             with_n!(c.len(), N => finish_q(Convolve::<Q, N>::normalized(ConvolveConfig { coefficients: arr(c) }), wrap))
         }
         ("delay", _) => with_n!(kv_n(kv, "N"), N => finish_q(Delay::<Q, N>::default(), wrap)),
+        ("analyze", _) | ("synthesize", _) => {
+            let (lo, hi) = (kv_qs(kv, "low"), kv_qs(kv, "high"));
+            assert_eq!(lo.len(), hi.len(), "harness: kernels of different length");
+            with_n!(lo.len(), N => {
+                let cfg = signalo_filters::wavelet::analyze::Config {
+                    low_pass: ConvolveConfig { coefficients: arr(lo) },
+                    high_pass: ConvolveConfig { coefficients: arr(hi) },
+                };
+                if kind == "analyze" {
+                    finish_ne(Analyze::<Q, N>::with_config(cfg), wrap)
+                } else {
+                    let cfg = signalo_filters::wavelet::synthesize::Config { low_pass: cfg.low_pass, high_pass: cfg.high_pass };
+                    finish_ne(Synthesize::<Q, N>::with_config(cfg), wrap)
+                }
+            })
+        }
         ("meanvar", _) => with_n!(kv_n(kv, "N"), N => finish_ne(MeanVariance::<Q, N>::default(), wrap)),
         ("differentiate", "f64") => finish(Differentiate::<f64>::default(), wrap),
         ("integrate", "f64") => finish(Integrate::<f64>::default(), wrap),
@@ -896,6 +935,8 @@ fn build_inner(kind: &str, kv: &KV, wrap: Option<&str>) -> Box<dyn Inst> {
         ),
         ("slopes", "q") => finish_q(Slopes::<Q, Q>::with_config(SlopesConfig { outputs: out3(kv) }), wrap),
         ("slopes", "f64") => finish(Slopes::<f64, Q>::with_config(SlopesConfig { outputs: out3(kv) }), wrap),
+        ("slopes", "sn") => finish(Slopes::<Sn, Q>::with_config(SlopesConfig { outputs: out3(kv) }), wrap),
+        ("peaks", "sn") => finish(Peaks::<Sn, Q>::with_config(PeaksConfig { outputs: out3(kv) }), wrap),
         ("peaks", "q") => finish_q(Peaks::<Q, Q>::with_config(PeaksConfig { outputs: out3(kv) }), wrap),
         ("peaks", "f64") => finish(Peaks::<f64, Q>::with_config(PeaksConfig { outputs: out3(kv) }), wrap),
         ("peaks_slopes", _) => finish(Peaks::<Slope, Q>::with_config(PeaksConfig { outputs: out3(kv) }), wrap),
@@ -916,6 +957,32 @@ fn parse_taps(s: &str) -> Vec<(Q, usize)> {
 }
 
 /// `inject`: an instance built through `FromGuts` from an explicitly given state
+/// how an injected state reaches the filter: through `FromGuts::from_guts` (default), or written through
+/// `StateMut::state_mut` into a freshly constructed filter (`via=statemut`) — both are public ways to hand a filter a
+/// state, and whatever a filter caches besides its public state must agree with either
+macro_rules! inj_cs {
+    ($kv:expr, $ty:ty, $cfg:expr, $st:expr) => {{
+        if $kv.get("via").map(|s| s.as_str()) == Some("statemut") {
+            let mut f = <$ty>::with_config($cfg);
+            unsafe { *StateMut::state_mut(&mut f) = $st; }
+            Box::new(f) as Box<dyn Inst>
+        } else {
+            Box::new(<$ty>::from_guts(($cfg, $st))) as Box<dyn Inst>
+        }
+    }};
+}
+macro_rules! inj_s {
+    ($kv:expr, $ty:ty, $st:expr) => {{
+        if $kv.get("via").map(|s| s.as_str()) == Some("statemut") {
+            let mut f = <$ty>::default();
+            unsafe { *StateMut::state_mut(&mut f) = $st; }
+            Box::new(f) as Box<dyn Inst>
+        } else {
+            Box::new(<$ty>::from_guts($st)) as Box<dyn Inst>
+        }
+    }};
+}
+
 pub fn inject(kind: &str, kv: &KV) -> Box<dyn Inst> {
     use circular_buffer::CircularBuffer;
     match kind {
@@ -960,48 +1027,48 @@ pub fn inject(kind: &str, kv: &KV) -> Box<dyn Inst> {
             let mut taps: CircularBuffer<N, (Q, usize)> = CircularBuffer::default();
             for t in parse_taps(kv_str(kv, "taps")) { taps.push_back(t); }
             let st = signalo_filters::bounds::max::State { time: kv_n(kv, "time"), taps };
-            Box::new(Max::<Q, N>::from_guts(st)) as Box<dyn Inst>
+            inj_s!(kv, Max::<Q, N>, st)
         }),
         "min" => with_n!(kv_n(kv, "N"), N => {
             let mut taps: CircularBuffer<N, (Q, usize)> = CircularBuffer::default();
             for t in parse_taps(kv_str(kv, "taps")) { taps.push_back(t); }
             let st = signalo_filters::bounds::min::State { time: kv_n(kv, "time"), taps };
-            Box::new(Min::<Q, N>::from_guts(st)) as Box<dyn Inst>
+            inj_s!(kv, Min::<Q, N>, st)
         }),
         "debounce" => {
             let cfg = DebounceConfig { threshold: kv_n(kv, "thr"), predicate: kv_q(kv, "pred"), outputs: out2(kv) };
             let st = signalo_filters::classify::debounce::State { count: kv_n(kv, "count") };
-            Box::new(Debounce::<Q, Q>::from_guts((cfg, st)))
+            inj_cs!(kv, Debounce::<Q, Q>, cfg, st)
         }
         "schmitt" => {
             let cfg = SchmittConfig { thresholds: [kv_q(kv, "low"), kv_q(kv, "high")], outputs: out2(kv) };
             let st = signalo_filters::classify::schmitt::State { on: kv_str(kv, "on") == "true" };
-            Box::new(Schmitt::<Q, Q>::from_guts((cfg, st)))
+            inj_cs!(kv, Schmitt::<Q, Q>, cfg, st)
         }
         // arbitrary states of the recursive filters (the recurrences are one-step statements about ANY state)
         "kalman" => {
             let cfg = KalmanConfig { r: kv_q(kv, "r"), q: kv_q(kv, "q"), a: kv_q(kv, "a"), b: kv_q(kv, "b"), c: kv_q(kv, "c") };
             let st = signalo_filters::observe::kalman::State { cov: kv_q(kv, "cov"), value: kv_oq(kv, "value") };
-            Box::new(Kalman::<Q>::from_guts((cfg, st)))
+            inj_cs!(kv, Kalman::<Q>, cfg, st)
         }
         "alphabeta" => {
             let cfg = AbConfig { alpha: kv_q(kv, "alpha"), beta: kv_q(kv, "beta") };
             let st = signalo_filters::observe::alpha_beta::State { velocity: kv_q(kv, "velocity"), value: kv_oq(kv, "value") };
-            Box::new(AlphaBeta::<Q>::from_guts((cfg, st)))
+            inj_cs!(kv, AlphaBeta::<Q>, cfg, st)
         }
         "ema" => {
             let st = signalo_filters::mean::exp::mean::State { mean: kv_oq(kv, "mean") };
-            Box::new(Ema::<Q>::from_guts((EmaConfig { inverse_width: kv_q(kv, "w") }, st)))
+            inj_cs!(kv, Ema::<Q>, EmaConfig { inverse_width: kv_q(kv, "w") }, st)
         }
-        "integrate" => Box::new(Integrate::<Q>::from_guts(signalo_filters::integrate::State { value: kv_q(kv, "value") })),
+        "integrate" => inj_s!(kv, Integrate::<Q>, signalo_filters::integrate::State { value: kv_q(kv, "value") }),
         "differentiate" => {
-            Box::new(Differentiate::<Q>::from_guts(signalo_filters::differentiate::State { value: kv_oq(kv, "value") }))
+            inj_s!(kv, Differentiate::<Q>, signalo_filters::differentiate::State { value: kv_oq(kv, "value") })
         }
         "mean" => with_n!(kv_n(kv, "N"), N => {
             let mut taps: CircularBuffer<N, Q> = CircularBuffer::default();
             for t in kv_qs(kv, "taps") { taps.push_back(t); }
             let st = signalo_filters::mean::mean::State { mean: kv_oq(kv, "mean"), taps, weight: kv_q(kv, "weight") };
-            Box::new(Mean::<Q, N>::from_guts(st)) as Box<dyn Inst>
+            inj_s!(kv, Mean::<Q, N>, st)
         }),
         "emedian" => {
             let cfg = EmedConfig {
@@ -1022,7 +1089,7 @@ pub fn inject(kind: &str, kv: &KV) -> Box<dyn Inst> {
                 )),
                 median: kv_oq(kv, "median"),
             };
-            Box::new(Emed::<Q>::from_guts((cfg, st)))
+            inj_cs!(kv, Emed::<Q>, cfg, st)
         }
         "emeanvar" => {
             // the two inner averages carry their own copy of the width (`mw`, `vw`; default: the filter's)
@@ -1037,7 +1104,7 @@ pub fn inject(kind: &str, kv: &KV) -> Box<dyn Inst> {
                     signalo_filters::mean::exp::mean::State { mean: kv_oq(kv, "var") },
                 )),
             };
-            Box::new(Emv::<Q>::from_guts((EmvConfig { inverse_width: kv_q(kv, "w") }, st)))
+            inj_cs!(kv, Emv::<Q>, EmvConfig { inverse_width: kv_q(kv, "w") }, st)
         }
         // a tap ring filled by hand to any level (reachable only through the public state + `from_guts`): the filter
         // tops it up with the current sample before it convolves / delays
@@ -1047,14 +1114,14 @@ pub fn inject(kind: &str, kv: &KV) -> Box<dyn Inst> {
                 let mut taps: CircularBuffer<N, Q> = CircularBuffer::default();
                 for t in kv_qs(kv, "taps") { taps.push_back(t); }
                 let st = signalo_filters::convolve::State { taps };
-                Box::new(Convolve::<Q, N>::from_guts((ConvolveConfig { coefficients: arr(c) }, st))) as Box<dyn Inst>
+                inj_cs!(kv, Convolve::<Q, N>, ConvolveConfig { coefficients: arr(c) }, st)
             })
         }
         "delay" => with_n!(kv_n(kv, "N"), N => {
             let mut taps: CircularBuffer<N, Q> = CircularBuffer::default();
             for t in kv_qs(kv, "taps") { taps.push_back(t); }
             let st = signalo_filters::delay::State { taps };
-            Box::new(Delay::<Q, N>::from_guts(st)) as Box<dyn Inst>
+            inj_s!(kv, Delay::<Q, N>, st)
         }),
         k => panic!("harness: cannot inject kind {}", k),
     }
